@@ -153,3 +153,64 @@ Fixpoint wire_mismatches (n : N) (cases : list (commit * list N * list (nat * bo
   | [] => []
   | (c, b, k) :: r => map (fun t => (n, t)) (wire_check c b k) ++ wire_mismatches (n + 1) r
   end.
+
+(* ---- a whole buffer as Buffer.WriteTo / ReadFrom lay it out (commit/buffer_codec.go):
+        string column, int32 last (little endian), counted 12-byte chunk headers (three big-endian
+        uint32: chunk, start, value), the bytes ---- *)
+Definition be32 (x : N) : list N := [(x / 16777216) mod 256; (x / 65536) mod 256; (x / 256) mod 256; x mod 256].
+Definition be32_dec : parser N := fun l =>
+  match l with
+  | a :: b :: c :: d :: rest => Ok (16777216 * a + 65536 * b + 256 * c + d) rest
+  | _ => Short
+  end.
+Lemma be32_safe : safe be32 be32_dec (fun x => x < 2^32).
+Proof.
+  split.
+  - intros x rest Hx. unfold be32, be32_dec. cbn [app]. f_equal. change (2^32) with 4294967296 in Hx. lia.
+  - intros x p Hx (s & Hs & E). unfold be32 in E.
+    destruct p as [|a [|b [|c [|d p]]]]; try reflexivity.
+    cbn in E. injection E as _ _ _ _ E. destruct p; [destruct s; [congruence|discriminate]|discriminate].
+Qed.
+
+Definition bheader := (N * (N * N))%type.                      (* chunk, start, value *)
+Definition wbuffer := (list N * (N * (list bheader * list N)))%type.   (* column, last, headers, bytes *)
+Definition bheader_enc : bheader -> list N := pair_enc be32 (pair_enc be32 be32).
+Definition bheader_dec : parser bheader := pair_dec be32_dec (pair_dec be32_dec be32_dec).
+Definition wbuffer_enc : wbuffer -> list N := pair_enc bytes_enc (pair_enc le32 (pair_enc (many_enc bheader_enc) bytes_enc)).
+Definition wbuffer_dec : parser wbuffer := pair_dec bytes_dec (pair_dec le32_dec (pair_dec (many_dec bheader_dec) bytes_dec)).
+
+Definition u32 (x : N) := x < 2^32.
+Definition bheader_ok (h : bheader) := u32 (fst h) /\ (u32 (fst (snd h)) /\ u32 (snd (snd h))).
+Definition bheaders_ok (l : list bheader) := N.of_nat (length l) < 2^64 /\ Forall bheader_ok l.
+Definition wbuffer_ok (b : wbuffer) :=
+  blob_ok (fst b) /\ (u32 (fst (snd b)) /\ (bheaders_ok (fst (snd (snd b))) /\ blob_ok (snd (snd (snd b))))).
+
+Lemma bheader_safe : safe bheader_enc bheader_dec bheader_ok.
+Proof.
+  exact (pair_safe be32 be32_dec u32 _ _ (fun p : N * N => u32 (fst p) /\ u32 (snd p)) be32_safe
+           (pair_safe be32 be32_dec u32 be32 be32_dec u32 be32_safe be32_safe)).
+Qed.
+
+(* C05, sentence 2 for buffers: a serialized buffer reads back as itself, whatever follows it, and
+   no strict prefix of it is accepted *)
+Theorem wbuffer_safe : safe wbuffer_enc wbuffer_dec wbuffer_ok.
+Proof.
+  exact (pair_safe bytes_enc bytes_dec blob_ok _ _
+           (fun p : N * (list bheader * list N) => u32 (fst p) /\ (bheaders_ok (fst (snd p)) /\ blob_ok (snd (snd p))))
+           bytes_safe
+           (pair_safe le32 le32_dec u32 _ _ (fun p : list bheader * list N => bheaders_ok (fst p) /\ blob_ok (snd p))
+              le32_safe
+              (pair_safe (many_enc bheader_enc) (many_dec bheader_dec) bheaders_ok bytes_enc bytes_dec blob_ok
+                 (many_safe bheader_enc bheader_dec bheader_ok bheader_safe) bytes_safe))).
+Qed.
+
+Definition wbuffer_check (b : wbuffer) (bytes : list N) : list N :=
+  (if list_eq_dec N.eq_dec (wbuffer_enc b) bytes then [] else [1]) ++
+  (match wbuffer_dec bytes with
+   | Ok b' [] => if list_eq_dec N.eq_dec (wbuffer_enc b') bytes then [] else [2]
+   | _ => [2] end).
+Fixpoint wbuffer_mismatches (n : N) (cases : list (wbuffer * list N)) : list (N * N) :=
+  match cases with
+  | [] => []
+  | (b, y) :: r => map (fun t => (n, t)) (wbuffer_check b y) ++ wbuffer_mismatches (n + 1) r
+  end.
